@@ -11,7 +11,7 @@ result) as an explicit hypothesis.
 The full statement `C39_full` is FALSE of the current code; it is kept as a `def`,
 refuted with concrete witnesses, and the strongest partial results are proved:
 the fast path is correct exactly in Clinger's range (`fastpath_correct`), the tables
-are correct except `pow5s[23]`, the `exact` flag is sound for non-negative exponents in
+are correct (`pow5s_ok`; entry 23 was repaired by /repo commit 26681def), the `exact` flag is sound for non-negative exponents in
 that range.  `fixed_correct` proves that the repaired algorithm `float64Fixed` (the patch
 proposed to the maintainers) satisfies the full statement.
 -/
@@ -41,23 +41,16 @@ instance (f : F) (N D : Nat) (s : Int) : Decidable (isExactly f N D s) := by
 /-- **C39 at full strength** (for every parsed numeral, with IEEE hardware). -/
 def C39_full : Prop := ∀ z : Dec, correctlyRounded ieee z ∧ exactSound ieee z
 
-/-- every entry of `pow5s` is the correctly rounded power of five -/
-def pow5s_full : Prop := ∀ i, i < 32 → pow5s i = rne (5 ^ i) 1 0
-
 /-! ## Tables (complete finite tables, kernel-decided) -/
 
-theorem pow5s_table : ∀ i : Fin 32, i.val ≠ 23 → pow5s i.val = rne (5 ^ i.val) 1 0 := by
+theorem pow5s_table : ∀ i : Fin 32, pow5s i.val = rne (5 ^ i.val) 1 0 := by
   decide +kernel
 
-/-- all entries of `pow5s` except index 23 are correctly rounded powers of five -/
-theorem pow5s_partial (i : Nat) (h : i < 32) (h23 : i ≠ 23) : pow5s i = rne (5 ^ i) 1 0 :=
-  pow5s_table ⟨i, h⟩ h23
-
-/-- entry 23 is `5^7`, not `5^23` -/
-theorem pow5s_23_wrong : pow5s 23 = rne (5 ^ 7) 1 0 ∧ pow5s 23 ≠ rne (5 ^ 23) 1 0 := by
-  decide +kernel
-
-theorem pow5s_full_refuted : ¬ pow5s_full := fun h => pow5s_23_wrong.2 (h 23 (by decide))
+/-- every entry of `pow5s` is the correctly rounded power of five.  (Before /repo commit
+    26681def entry 23 held `1e07/0x1p07 = 5^7`; this theorem was then false at `i = 23` and
+    `1e23` converted to `6.5536e11`.) -/
+theorem pow5s_ok (i : Nat) (h : i < 32) : pow5s i = rne (5 ^ i) 1 0 :=
+  pow5s_table ⟨i, h⟩
 
 theorem pow5s32_table : ∀ k : Fin 10, pow5s32 k.val = rne (5 ^ (32 * k.val)) 1 0 := by
   decide +kernel
@@ -93,7 +86,7 @@ theorem fastpath_pos (A : Arith) (hA : A.IEEE) (w n : Nat)
   have h5 : 5 ^ n ≤ 2 ^ 52 := five_pow_le n hn
   have h5pos : 5 ^ n ≠ 0 := Nat.ne_of_gt (Nat.pow_pos (by decide))
   obtain ⟨mt, qt, ht, hvt⟩ := rne_nat_exact (5 ^ n) h5pos (Nat.le_trans h5 (by decide))
-  have htab : pow5s n = .fin mt qt := by rw [pow5s_partial n (by omega) (by omega), ht]
+  have htab : pow5s n = .fin mt qt := by rw [pow5s_ok n (by omega), ht]
   -- pow5
   have hp : pow5 A (A.ofU64 w) n = rne (5 ^ n * w) 1 0 := by
     unfold pow5
@@ -131,7 +124,7 @@ theorem fastpath_neg (A : Arith) (hA : A.IEEE) (w n : Nat)
   have h5 : 5 ^ n ≤ 2 ^ 52 := five_pow_le n hn
   have h5pos : 5 ^ n ≠ 0 := Nat.ne_of_gt (Nat.pow_pos (by decide))
   obtain ⟨mt, qt, ht, hvt⟩ := rne_nat_exact (5 ^ n) h5pos (Nat.le_trans h5 (by decide))
-  have htab : pow5s n = .fin mt qt := by rw [pow5s_partial n (by omega) (by omega), ht]
+  have htab : pow5s n = .fin mt qt := by rw [pow5s_ok n (by omega), ht]
   have hmt : mt ≠ 0 := by
     intro h; subst h
     unfold valEq at hvt
@@ -549,8 +542,6 @@ theorem fixed_correct (A : Arith) (hA : A.IEEE) (z : Dec) :
 
 /-! ## Refutation of the full statement (concrete witnesses, evaluated by the kernel) -/
 
-/-- `1e23` (parsed: mantissa 1, `z.exp` 24) -/
-def d1e23 : Dec := { neg := false, base2 := false, w := 1, exp := 24 }
 /-- `1e-24`: the first power of ten outside Clinger's range (`5^24 > 2^53`) -/
 def d1em24 : Dec := { neg := false, base2 := false, w := 1, exp := -23 }
 /-- `49e-325` = `4.9e-324` -/
@@ -561,11 +552,6 @@ def d0p1 : Dec := { neg := false, base2 := false, w := 1, exp := 0 }
 def dHexTie : Dec := { neg := false, base2 := true, w := 0x20000000000003, exp := 1 }
 /-- `0x1p-1075` -/
 def dHexTiny : Dec := { neg := false, base2 := true, w := 1, exp := -1074 }
-
-/-- `1e23 ↦ 6.5536e11` because `pow5s[23]` holds `5^7` -/
-theorem wrong_1e23 : (float64 ieee d1e23).1.toBits = 0x426312D000000000 ∧
-    (rne (10 ^ 23) 1 0).toBits = 0x44B52D02C7E14AF6 ∧ ¬ correctlyRounded ieee d1e23 := by
-  unfold correctlyRounded; decide +kernel
 
 /-- two roundings (inexact `5^24`, then the division) give the wrong neighbour for `1e-24` -/
 theorem wrong_1em24 : (float64 ieee d1em24).1.toBits = 0x3AF357C299A88EA8 ∧
@@ -598,10 +584,11 @@ theorem wrong_exact_hex_tiny : ¬ exactSound ieee dHexTiny := by
   decide +kernel
 
 /-- **C39 is false of the current code.** -/
-theorem C39_full_refuted : ¬ C39_full := fun h => wrong_1e23.2.2 (h d1e23).1
+theorem C39_full_refuted : ¬ C39_full := fun h => wrong_1em24.2.2 (h d1em24).1
 
-/-- it stays false with the table repaired (any exponent outside `[-22, 22]` can double-round) … -/
-theorem C39_refuted_without_table : ¬ (∀ z : Dec, z.w = 1 → correctlyRounded ieee z) :=
+/-- already for mantissa 1 (any exponent outside `[-22, 22]` can double-round; the tables are
+    correct, `pow5s_ok`) … -/
+theorem C39_refuted_mantissa_one : ¬ (∀ z : Dec, z.w = 1 → correctlyRounded ieee z) :=
   fun h => wrong_1em24.2.2 (h d1em24 rfl)
 
 /-- … and the exactness clause fails on its own -/
@@ -636,12 +623,11 @@ end PCV.Props.C39
 #print axioms PCV.Props.C39.slowpath_base10
 #print axioms PCV.Props.C39.exact_flag_char
 #print axioms PCV.Props.C39.exact_sound_partial
-#print axioms PCV.Props.C39.pow5s_partial
-#print axioms PCV.Props.C39.pow5s_full_refuted
+#print axioms PCV.Props.C39.pow5s_ok
 #print axioms PCV.Props.C39.pow5s32_ok
 #print axioms PCV.Props.C39.pow5s32neg_ok
 #print axioms PCV.Props.C39.C39_full_refuted
-#print axioms PCV.Props.C39.C39_refuted_without_table
+#print axioms PCV.Props.C39.C39_refuted_mantissa_one
 #print axioms PCV.Props.C39.C39_exact_refuted
 #print axioms PCV.Props.C39.wrong_49em325
 #print axioms PCV.Props.C39.wrong_hex_tie
